@@ -69,11 +69,16 @@ func (t *TempoController) Trace(w http.ResponseWriter, r *http.Request) {
 		PromError(500, err.Error(), w)
 		return
 	}
+	first, ok := <-res
+	if !ok {
+		PromError(404, "trace not found", w)
+		return
+	}
 
 	switch accept {
 	case "application/protobuf":
 		spansByServiceName := make(map[string]*v1.ResourceSpans, 100)
-		for span := range res {
+		for span, ok := first, true; ok; span, ok = <-res {
 			if _, ok := spansByServiceName[span.ServiceName]; !ok {
 				spansByServiceName[span.ServiceName] = &v1.ResourceSpans{
 					Resource: &resource.Resource{
@@ -119,7 +124,7 @@ func (t *TempoController) Trace(w http.ResponseWriter, r *http.Request) {
 			"resource":{"attributes":[{"key":"collector","value":{"stringValue":"qryn"}}]}, 
 			"instrumentationLibrarySpans": [{ "spans": [`))
 		i := 0
-		for span := range res {
+		for span, ok := first, true; ok; span, ok = <-res {
 			res, err := json.Marshal(unmarshal.SpanToJSONSpan(span.Span))
 			if err != nil {
 				PromError(500, err.Error(), w)
